@@ -965,10 +965,17 @@ make_task(echs_toid_t oid)
 	return res;
 }
 
+static void orphan_chlds(_task_t t);
+
 static void
 free_task(_task_t t)
 {
 /* hand task T over to free list */
+	if (UNLIKELY(t->nsim)) {
+		/* executions still in flight must not find this record any
+		 * more, the next task to use it would pay for their exits */
+		orphan_chlds(t);
+	}
 	/* free from our task hash table */
 	with (size_t i = get_task_slot(t->t->oid)) {
 		if (UNLIKELY(i >= ztask_ht || task_ht[i].oid != t->t->oid)) {
@@ -1364,6 +1371,21 @@ free_chld(ev_child *c)
 	c->data = free_chlds;
 	free_chlds = c;
 	nfree_chlds++;
+	return;
+}
+
+static void
+orphan_chlds(_task_t t)
+{
+/* make the watchers of T's running executions forget about T */
+	for (size_t i = 0U; i < ncpools; i++) {
+		for (size_t j = 0U; j < cpools[i].size; j++) {
+			if (cpools[i]._1st[j].data == t) {
+				cpools[i]._1st[j].data = NULL;
+			}
+		}
+	}
+	t->nsim = 0U;
 	return;
 }
 
@@ -2209,6 +2231,11 @@ chld_cb(EV_P_ ev_child *c, int UNUSED(revents))
 	ECHS_NOTI_LOG("chld %d coughed: %d", c->rpid, c->rstatus);
 	ev_child_stop(EV_A_ c);
 	c->rpid = c->pid = 0;
+	if (UNLIKELY(t == NULL)) {
+		/* the task has been cancelled or buried in the meantime */
+		free_chld(c);
+		return;
+	}
 	t->nsim--;
 
 	if (UNLIKELY(t->w.reschedule_cb == NULL)) {
